@@ -6,7 +6,7 @@ import json, sys
 
 KEEP = {
     "open": ["e", "c", "host", "port", "draws"], "open_poll": ["e", "c", "draws"],
-    "accept": ["e"], "write": ["e", "h", "len", "vectored"], "read": ["e", "h", "max", "pre", "via"],
+    "accept": ["e"], "write": ["e", "h", "len", "lens", "vectored"], "read": ["e", "h", "max", "pre", "via"],
     "shutdown": ["e", "h"], "drop": ["e", "h"], "drop_mux": ["e"],
     "dg_send": ["e", "id", "port"], "dg_get": ["e"],
     "bind": ["e", "c", "bt", "host", "port", "draws"], "bind_poll": ["e", "c"], "next_bind": ["e"],
